@@ -84,6 +84,7 @@ type World struct {
 	ctlBase           int64
 	reservedExtra     map[wire.OutPoint]bool
 	closed            bool // close() ran (or the case disposed of the instance itself)
+	apiH              *apiHandle
 	// options
 	allowNullData bool
 	allowStaking  bool
